@@ -2201,3 +2201,201 @@ func c03StartOnlyWhenAbsent(c *Check, rule string) {
 	path, found := r.F.Reach(Query{From: r.Entry(), Inclusive: true, Target: isPt(starts), AvoidEdge: world})
 	c.Hold(rule, "getDelivery:start-only-when-absent", r.FI.Decl.Pos(), !found, "the target is started although the table already holds a delivery for it ("+r.F.Describe(path)+"): the entry is overwritten, the first delivery is neither committed nor aborted when the transaction ends")
 }
+
+// ---- C11.R13: a limiter with a limit takes a slot for every permit it grants.
+// Semaphore and Rate are no-ops when their channel has no capacity ("no limit configured") and work through the channel
+// otherwise. With the no-op test inverted (a survivor of the mutant run of round 12: `if !(cap(s.c) <= 0) { return nil }`)
+// a configured limit of N grants every request at once – more than N messages hold a permit – and the matching Release
+// panics on the empty channel. Decided for every method of the limiter types that operates on the type's channel: in the
+// world "the channel has capacity" every successful way out passes the channel operation (in a select: the clause that
+// performs it).
+func c11GrantedMeansTaken(c *Check, rule string) {
+	c.Rule(rule, "limiters: in the world 'the limiter's channel has capacity' (a limit is configured) every successful exit of a method that operates on the channel has passed the channel operation – no permit is granted, and none is given back, without the slot being taken / freed", 4)
+	p := c.P
+	pk := p.Pkg("internal/limits/limiters")
+	if pk == nil {
+		c.Fail(rule, "package", token.NoPos, "anchor unresolved")
+		return
+	}
+	info := pk.TypesInfo
+	n := 0
+	p.AllFuncs([]*packagesPkg{pk}, func(fi *FuncInfo) {
+		if fi.Decl.Body == nil || fi.Decl.Recv == nil || strings.HasSuffix(p.Fset.Position(fi.Decl.Pos()).Filename, "_test.go") {
+			return
+		}
+		switch fi.Obj.Name() {
+		case "Take", "TakeContext", "Release":
+		default:
+			return
+		}
+		recv := recvObjOf(fi)
+		if recv == nil {
+			return
+		}
+		// the channel field(s) of the receiver the method operates on
+		chanOp := func(x ast.Node) *types.Var {
+			var fv *types.Var
+			ast.Inspect(x, func(y ast.Node) bool {
+				switch s := y.(type) {
+				case *ast.FuncLit:
+					return false
+				case *ast.SendStmt:
+					if f := fieldOf(info, s.Chan); f != nil {
+						fv = f
+					}
+				case *ast.UnaryExpr:
+					if s.Op == token.ARROW {
+						if f := fieldOf(info, s.X); f != nil {
+							fv = f
+						}
+					}
+				}
+				return true
+			})
+			if fv != nil {
+				if _, isChan := fv.Type().Underlying().(*types.Chan); !isChan {
+					return nil
+				}
+			}
+			return fv
+		}
+		var field *types.Var
+		ast.Inspect(fi.Decl.Body, func(x ast.Node) bool {
+			if st, ok := x.(ast.Stmt); ok && field == nil {
+				if sel, isSel := fieldSelOnRecv(info, st, recv, chanOp); isSel {
+					field = sel
+				}
+			}
+			return true
+		})
+		if field == nil {
+			return
+		}
+		n++
+		c.SawFunc(fi.Name())
+		fl := p.FlowOfFunc(fi)
+		var ops []Pt
+		inSelectComm := map[ast.Node]bool{}
+		ast.Inspect(fi.Decl.Body, func(x ast.Node) bool {
+			if cc, ok := x.(*ast.CommClause); ok && cc.Comm != nil {
+				inSelectComm[cc.Comm] = true
+				if chanOp(cc.Comm) == field {
+					for _, b := range fl.G.Blocks {
+						if b.Kind == kindSelectCaseBody && b.Stmt == ast.Stmt(cc) {
+							ops = append(ops, Pt{b, 0})
+						}
+					}
+				}
+			}
+			return true
+		})
+		for _, pt := range fl.Points() {
+			nd := pt.Node()
+			if nd == nil || inSelectComm[nd] {
+				continue
+			}
+			if _, isSel := nd.(*ast.SelectStmt); isSel {
+				continue
+			}
+			// the evaluation of a select's comm expressions is not the operation having been chosen
+			isComm := false
+			for cm := range inSelectComm {
+				if within(cm, nd) {
+					isComm = true
+				}
+			}
+			if isComm {
+				continue
+			}
+			if chanOp(nd) == field {
+				ops = append(ops, pt)
+			}
+		}
+		world := fl.World(func(atom ast.Expr) (bool, bool) {
+			be, ok := ast.Unparen(atom).(*ast.BinaryExpr)
+			if !ok {
+				return false, false
+			}
+			call, isCall := ast.Unparen(be.X).(*ast.CallExpr)
+			if !isCall || len(call.Args) != 1 {
+				return false, false
+			}
+			if id, isID := ast.Unparen(call.Fun).(*ast.Ident); !isID || id.Name != "cap" || fieldOf(info, call.Args[0]) != field {
+				return false, false
+			}
+			tv, has := info.Types[be.Y]
+			if !has || tv.Value == nil {
+				return false, false
+			}
+			cv, isInt := constInt(tv)
+			if !isInt {
+				return false, false
+			}
+			const val = int64(1)
+			switch be.Op {
+			case token.LSS:
+				return val < cv, true
+			case token.LEQ:
+				return val <= cv, true
+			case token.GTR:
+				return val > cv, true
+			case token.GEQ:
+				return val >= cv, true
+			case token.EQL:
+				return val == cv, true
+			case token.NEQ:
+				return val != cv, true
+			}
+			return false, false
+		})
+		sig := fi.Obj.Type().(*types.Signature)
+		success := func(pt Pt) bool {
+			k, ret := fl.Exit(pt)
+			if k == NotExit {
+				return false
+			}
+			if sig.Results().Len() == 0 {
+				return fl.IsNormalExit(pt)
+			}
+			if k != ExitReturn {
+				return false
+			}
+			if ret == nil || len(ret.Results) != 1 {
+				return false
+			}
+			e := ast.Unparen(ret.Results[0])
+			if isErrorType(sig.Results().At(0).Type()) {
+				return isNilIdent(info, e)
+			}
+			if tv, has := info.Types[e]; has && tv.Value != nil {
+				return tv.Value.String() == "true"
+			}
+			return true
+		}
+		path, found := fl.Reach(Query{From: []Pt{fl.Entry()}, Inclusive: true, Target: success, Avoid: isPt(ops), AvoidEdge: world})
+		c.Hold(rule, fi.Name()+":"+field.Name(), fi.Decl.Pos(), len(ops) > 0 && !found, "with a limit configured (the channel "+field.Name()+" has capacity) "+fi.Obj.Name()+" can succeed without the channel operation ("+fl.Describe(path)+"): permits are granted without a slot being taken – more than N hold one at a time – or given back without a slot being freed (the limit fills up and never drains)")
+	})
+	if n == 0 {
+		c.Fail(rule, "methods", token.NoPos, "anchor unresolved: no limiter method operates on a channel of its receiver")
+	}
+}
+
+// fieldSelOnRecv: the statement performs a channel operation on a field of the receiver.
+func fieldSelOnRecv(info *types.Info, st ast.Stmt, recv types.Object, chanOp func(ast.Node) *types.Var) (*types.Var, bool) {
+	switch st.(type) {
+	case *ast.BlockStmt, *ast.IfStmt, *ast.ForStmt, *ast.SelectStmt, *ast.SwitchStmt, *ast.RangeStmt, *ast.CaseClause, *ast.LabeledStmt:
+		return nil, false
+	}
+	fv := chanOp(st)
+	if fv == nil {
+		return nil, false
+	}
+	owned := false
+	ast.Inspect(st, func(y ast.Node) bool {
+		if sel, ok := y.(*ast.SelectorExpr); ok && fieldOf(info, sel) == fv && objOf(info, sel.X) == recv {
+			owned = true
+		}
+		return true
+	})
+	return fv, owned
+}
